@@ -777,6 +777,79 @@ def Sys.allSettled {σ : Type} (s : Sys σ) : Bool := s.pcs.all Pc.settled
 def Sys.allDoneOrCancelled {σ : Type} (s : Sys σ) : Bool :=
   s.pcs.all fun p => match p with | .done => true | .cancelled => true | _ => false
 
+/-! ### tasks created by other tasks
+
+`asyncio.create_task(...)` inside the body of an `edit_state` block: `spawn c = some (p, k)` says
+that task `c` does not exist at the start; it is created by task `p` at the beginning of chunk `k`
+of its `edit_state` body (inside the `async with`, with a copy of `p`'s context).  Until then no
+section of `c` can run and there is nothing to cancel.  From its creation on it is a task like any
+other: its first section calls its operation, which takes the store lock like everybody else — the
+store modules keep nothing per task or per context (`GenStateStore.*ContextFree`, from the source). -/
+
+abbrev Spawn := Nat → Option (Nat × Nat)
+
+/-- the chunk of its `edit_state` body that the next section of task `t` starts, if it starts one
+(`run t` from `idle` enters the body only on the lock's fast path; from `waiting` it is enabled only
+when it gets the lock) -/
+def Sys.starts {σ : Type} (prog : List COp) (s : Sys σ) (t : Nat) : Option Nat :=
+  match prog[t]?, s.pcs[t]? with
+  | some (.edit _), some .idle =>
+    if s.holder = none ∧ s.queue.all (futCancelled s.pcs) = true then some 0 else none
+  | some (.edit _), some .waiting => some 0
+  | some (.edit cs), some (.body _ (_ :: rest) _) => some (cs.length - (rest.length + 1))
+  | _, _ => none
+
+/-- `Sys` plus (ghost) the spawned tasks that have been created so far -/
+structure SpSys (σ : Type) where
+  sys : Sys σ
+  born : List Nat := []
+
+def SpSys.init {σ : Type} (st : σ) (n : Nat) : SpSys σ := { sys := Sys.init st n }
+
+/-- the task exists: it is one of the initial tasks, or it has been created -/
+def SpSys.live {σ : Type} (sp : Spawn) (s : SpSys σ) (t : Nat) : Bool :=
+  match sp t with
+  | none => true
+  | some _ => s.born.contains t
+
+/-- the tasks that chunk `k` of task `t` creates (a task does not create itself) -/
+def children (sp : Spawn) (n t k : Nat) : List Nat :=
+  (List.range n).filter fun c => decide (sp c = some (t, k)) && decide (c ≠ t)
+
+def SpSys.exec {σ : Type} (B : Backend σ) (prog : List COp) (sp : Spawn) (s : SpSys σ) : Act → Option (SpSys σ)
+  | .run t =>
+    if s.live sp t then
+      match Sys.run B prog s.sys t with
+      | some s' =>
+        some { sys := s'
+               born := match Sys.starts prog s.sys t with
+                 | some k => s.born ++ children sp prog.length t k
+                 | none => s.born }
+      | none => none
+    else none
+  | .cancel t =>
+    if s.live sp t then
+      match Sys.cancel s.sys t with
+      | some s' => some { s with sys := s' }
+      | none => none
+    else none
+
+def SpSys.execAll {σ : Type} (B : Backend σ) (prog : List COp) (sp : Spawn) : SpSys σ → List Act → Option (SpSys σ)
+  | s, [] => some s
+  | s, a :: as => match SpSys.exec B prog sp s a with
+    | some s' => SpSys.execAll B prog sp s' as
+    | none => none
+
+/-- every task that exists has ended; a spawned task whose creator never reached the creating
+chunk (it raised, or was cancelled, before) does not exist -/
+def SpSys.allEnded {σ : Type} (sp : Spawn) (s : SpSys σ) : Bool :=
+  (List.range s.sys.pcs.length).all fun t =>
+    (match s.sys.pcs[t]? with | some p => p.settled | none => true) || !(s.live sp t)
+
+/-- `p` occurs before `c` in `l` -/
+def Before (l : List Nat) (p c : Nat) : Prop := ∃ l1 l2 l3, l = l1 ++ p :: l2 ++ c :: l3
+
+
 /-- the operation task `t` counts with: its own, or — aborted inside the body — what it left behind -/
 def effOp (prog : List COp) (pcs : List Pc) (t : Nat) : Option COp :=
   match pcs[t]? with
